@@ -125,9 +125,9 @@ H("c08_reassembly", src="h_large_tlv.c", props=["C08"], unwind=8, defines=["V_LI
 H("parse_frame", src="h_parse_frame.c", props=["C05", "C09", "C17", "C03", "C02", "C19", "C18", "C01", "C07"],
   replace=["answerHello", "parseEmit", "parseProbe", "parseQuery", "parseQueryLargeTlv"],
   unwind=24, unwindset={"v_build_state.0": 50, "lltd_state_for_iface.0": 4, "lltd_state_clear_seen_probes.0": 8},
-  defines=["V_MTU_FIXED=576"], defines_quick=["V_LIST_MAX=3"], defines_thorough=["V_LIST_MAX=5"],
+  defines=["V_MTU_FIXED=576"], defines_quick=["V_LIST_MAX=2"], defines_thorough=["V_LIST_MAX=4"],
   must_reach=["end", "absent-fail", "absent-ok", "foreign", "accept", "reject", "reset"], shards=8,
-  bounded="records of at most 2 interfaces in the global list; observation lists of at most 3 (thorough 5) nodes; MTU fixed to 576")
+  bounded="records of at most 2 interfaces in the global list; observation lists of at most 2 (thorough 4) nodes in the dispatcher harness; MTU fixed to 576")
 
 # ---------------------------------------------------------------- Hello: writers and assembly (C02 / C03 / C04)
 H("tlv_writers", src="h_tlv.c", props=["C04", "C02", "C01", "C17"], unwind=8,
@@ -136,14 +136,14 @@ H("tlv_writers", src="h_tlv.c", props=["C04", "C02", "C01", "C17"], unwind=8,
            "setSupportInfoTLV", "setFriendlyNameTLV", "setHardwareIdTLV", "setQosCharacteristicsTLV"],
   unwindset={"h_tlv_writers.0": 162, "h_tlv_writers.1": 162, "v_copy_name.0": 42, "lltd_port_get_hw_id.0": 66, "lltd_port_get_ipv6_address.0": 18, "lltd_port_get_bssid.0": 8}, shards=8, must_reach=["end", "hostname", "rssi"])
 H("wire_headers", src="h_tlv.c", props=["C02", "C03", "C01", "C11"], unwind=8, unwindset={"h_wire_headers.0": 66, "h_wire_headers.1": 66})
-_HOSTLENS = {"quick": [0, 7, 32, 40], "thorough": list(range(0, 41))}
+_HOSTLENS = {"quick": [7, 40], "thorough": list(range(0, 41))}
 def _hello(w, hl, sl, tiers):
     n = "answer_hello_w%d_h%d_s%d" % (w, hl, sl)
     H(n, src="h_hello.c", fn="h_answer_hello", props=["C02", "C03", "C04", "C01", "C18", "C19", "C17"],
       enforce=["answerHello"], unwind=8, unwindset={"v_build_state.0": 50, "v_copy_name.0": 42, "lltd_port_get_ipv6_address.0": 18, "lltd_port_get_bssid.0": 8},
       defines=["V_WIFI=%d" % w, "V_HOSTLEN=%d" % hl, "V_SSIDLEN=%d" % sl, "V_TXCAP=256", "V_LIST_MAX=3"], must_reach=["end", "tx"], timeout=1800,
       thorough_only=("quick" not in tiers),
-      bounded="machine-name length %d, SSID length %d (one run per length: quick 0/7/32/40, thorough every 0..40); transmit buffer modelled with a constant capacity of 256 bytes" % (hl, sl))
+      bounded="machine-name length %d, SSID length %d (one run per length: quick machine name 7 / 40 wired and SSID 40 wireless, thorough every 0..40; symbolic lengths are covered per writer in tlv_writers); transmit buffer modelled with a constant capacity of 256 bytes" % (hl, sl))
     return n
 _HELLO_ALL, _HELLO_QUICK = [], []
 for hl in _HOSTLENS["thorough"]:
@@ -151,7 +151,7 @@ for hl in _HOSTLENS["thorough"]:
     n = _hello(0, hl, 0, ["quick", "thorough"] if q else ["thorough"]); _HELLO_ALL.append(n)
     if q: _HELLO_QUICK.append(n)
 for sl in _HOSTLENS["thorough"]:
-    q = sl in _HOSTLENS["quick"]
+    q = sl in (40,)
     n = _hello(1, 7, sl, ["quick", "thorough"] if q else ["thorough"]); _HELLO_ALL.append(n)
     if q: _HELLO_QUICK.append(n)
 
@@ -171,8 +171,8 @@ _FRAME_PATH = ["parse_frame"] + _HELLO_ALL + ["send_probe", "parse_emit", "parse
 PROPS = {
     "C01": {"harnesses": _FRAME_PATH + ["tlv_writers", "wire_headers", "derive", "derive_oob", "esp32_frame", "map_step", "sess_step", "enum_step", "tick"]},
     "C02": {"harnesses": _FRAME_PATH + ["tlv_writers", "wire_headers"]},
-    "C09": {"harnesses": ["parse_frame", "parse_probe", "parse_query", "send_ltr", "parse_qlt", "send_probe", _HELLO_QUICK[1]]},
-    "C17": {"harnesses": ["parse_frame", "send_probe", "parse_probe", "parse_query", "parse_qlt", _HELLO_QUICK[1], "tlv_writers"],
+    "C09": {"harnesses": ["parse_frame", "parse_probe", "parse_query", "send_ltr", "parse_qlt", "send_probe", _HELLO_QUICK[0]]},
+    "C17": {"harnesses": ["parse_frame", "send_probe", "parse_probe", "parse_query", "parse_qlt", _HELLO_QUICK[0], "tlv_writers"],
             "extra_steps": [closure.core_globals]},
     "C19": {"harnesses": _FRAME_PATH + ["ctor_mapping", "ctor_enum", "ctor_session", "tab_create"]},
     "C20": {"harnesses": [], "extra_steps": [closure.core_closure], "level": "other",
